@@ -8,6 +8,9 @@ ROOT=$(mktemp -d /tmp/verif-par.XXXXXX)
 LIST=$ROOT/list
 if [ "$MODE" = benign ]; then
   for f in /verif/selftest/benign/$GLOB.diff; do echo "$f ALL"; done > $LIST
+elif [ "$MODE" = seeds ]; then
+  # all twenty checks against every seeded change; writes seeded/<id>/checks.txt (input of seeded/reindex.sh --index-only)
+  for f in /verif/seeded/$GLOB/patch.diff; do echo "$f ALL"; done > $LIST
 else
   python3 - > $LIST <<'PY'
 import json
@@ -25,7 +28,14 @@ worker() {
     b=$(basename $(dirname $p))/$(basename $p .diff); [ "$MODE" = benign ] && b=$(basename $p .diff)
     if ! git -C $W/repo apply --check $p 2>/dev/null; then echo "== $b: does not apply (skipped)"; continue; fi
     git -C $W/repo apply $p
-    if [ "$MODE" = benign ]; then
+    if [ "$MODE" = seeds ]; then
+      RES=$(dirname $p)/checks.txt; : > $RES.tmp
+      for c in 01 02 03 04 05 06 07 08 09 10 11 12 13 14 15 16 17 18 19 20; do
+        o=$(cd /verif && ./check C$c 2>&1)
+        if echo "$o" | grep -q "^VIOLATION"; then echo "C$c: VIOLATION" >> $RES.tmp; echo "$o" | grep "violated" | head -6 | cut -c1-240 >> $RES.tmp; else echo "C$c: pass" >> $RES.tmp; fi
+      done
+      mv $RES.tmp $RES; echo "== $b: caught by $(grep VIOLATION $RES | cut -d: -f1 | tr '\n' ' ')"
+    elif [ "$MODE" = benign ]; then
       out=""
       for c in 01 02 03 04 05 06 07 08 09 10 11 12 13 14 15 16 17 18 19 20; do
         r=$(cd /verif && ./check C$c 2>&1 | grep -E "^  violated" | head -3 | cut -c1-230)
